@@ -107,6 +107,14 @@ var failClasses = []failClass{
 	{"broken-template:exec", `{{ exec("/zbroken.jet") }}`, false, true},
 	{"broken-reference:include", `{{ include "/zbadref.jet" }}`, false, true},
 	{"broken-reference:includeIfExists", `{{ includeIfExists("/zbadref.jet") }}`, false, true},
+	// the same broken template requested twice from one Set (the first failure is caught)
+	{"broken-template:include-again-after-try", `{{ try }}{{ include "/zbroken.jet" }}{{ end }}{{ include "/zbroken.jet" }}`, false, true},
+	{"broken-template:exec-again-after-try", `{{ try }}{{ exec("/zbroken.jet") }}{{ end }}{{ exec("/zbroken.jet") }}`, false, true},
+	// the '=' form of range over an index-less ranger with two variables
+	{"range-two-vars-indexless:let", `{{ range zza, zzb := plain }}{{ end }}`, true, true},
+	{"range-two-vars-indexless:assign", `{{ zza, zzb := 1, 2 }}{{ range zza, zzb = plain }}{{ end }}`, true, true},
+	{"underscore-without-piped-value:after-failed-pipe", `{{ try }}{{ s | repeat(zzNope) }}{{ end }}{{ upper(_) }}`, true, true},
+	{"underscore-without-piped-value:after-failed-pipe-builtin", `{{ try }}{{ s | len(1) }}{{ end }}{{ upper(_) }}`, true, true},
 	{"nil-map-index-then-field", `{{ root.NilP.Name }}`, true, true},
 	{"method-arg-count", `{{ item.Title(1) }}`, true, true},
 	{"field-of-string", `{{ s.Nope }}`, true, true},
@@ -357,6 +365,9 @@ func RunC12(env *sim.Env) {
 				variant[ps.File] = strings.Replace(world.Files[ps.File], gen.SitePlaceholder(r.id), fmt.Sprintf("{{fail(%d)}}", r.id), 1)
 				fcall := call
 				fcall.FaultProbe = k
+				if di%2 == 1 {
+					fcall.FaultKind = 3 // an error that wraps a Go runtime error is still an error
+				}
 				F, _ := run(variant, fcall)
 				judged++
 				env.Stat("fault:function_panics_with_error", 1)
